@@ -124,6 +124,17 @@ CHECKS["C18"] = dict(
     ref="§5.C18", note="Value/path candidates and custom completers are not constrained by the property. Four recorded limitations of the engine (flag subcommands, infer_subcommands, args_conflicts_with_subcommands, subcommand_precedence_over_arg) are known findings keyed by witness class.",
     technique="TLA+ spec (Complete.tla over Parser.tla) model-checked with TLC; TLC-generated queries replayed on the real completion engine; answers judged by a TLA+ trace spec")
 
+CHECKS["C19"] = dict(
+    text=("Roff.tla transcribes how roff 0.2.1 turns clap_mangen's text and control calls into output lines (escape_inline, apostrophe "
+          "handling, escape_leading_cc, the line-start \\& rule, escape_spaces) and gives the page skeleton - the exact sequence of control "
+          "lines Man::render emits - as a function of the definition's structure; TLC checks for every structure x text slot x adversarial "
+          "string within the bound that rendered text never starts a request and control-line arguments stay on one line; each case is "
+          "rendered by the real Man::render twice (determinism) under catch_unwind and the request names of every output line starting "
+          "with '.' or \"'\" are compared with the skeleton, visible items must be named and hidden ones must not; divergent pages are "
+          "judged by Trace_Man.tla."),
+    ref="§5.C19", note="Rendering by man/groff cannot be executed here; only the line-level roff grammar is modelled.",
+    technique="TLA+ spec (Roff.tla) model-checked with TLC; TLC-generated cases rendered by the real clap_mangen and compared line class by line class; divergent pages judged by a TLA+ trace spec")
+
 NOT_YET = "check not built yet in this round (specification module planned in DESIGN.md §4/§5); not claimed until its check exists"
 
 
